@@ -13,6 +13,7 @@ import WD.Proofs.Restart.Spawns
 import WD.Proofs.Restart.Debs
 import WD.Proofs.Restart.Progress
 import WD.Proofs.Restart.NoDeadlock
+import WD.Proofs.Restart.JoinAll
 import WD.Proofs.Shell
 namespace WD.C18
 open WD.Deb WD.ProofsDeb
@@ -127,11 +128,9 @@ theorem kill_loop_has_child (i : Nat) (ti : Rst.Thread)
     (Rst.run (Rst.init cfg lifetimes rscripts) ras).process ≠ none :=
   ProofsRst.sleeping_has_process cfg lifetimes rscripts ras i ti hi hs
 
-/-- "with all its helper threads gone", the watcher threads: once the working stop() has returned the trick references no
-    watcher and no child, and EVERY watcher thread ever started has been told to stop (a watcher is told to stop when its
-    child is replaced or stopped; it is not joined unless it is the current one, so it may still have its last step to
-    take - `stopped_watcher_ends`).  Not covered: the debouncer thread, which is joined by stop() and whose termination
-    is part of the explored runs only. -/
+/-- the watcher threads, their stop flags: once the working stop() has returned the trick references no watcher and no
+    child, and EVERY watcher thread ever started has been told to stop (a watcher is told to stop when its child is
+    replaced or stopped).  That they have also ENDED by then is `watchers_gone_after_stop`. -/
 theorem watchers_stopped_after_stop (tid t : Nat)
     (h : Rst.Obs.stopRet tid t ∈ (Rst.run (Rst.init cfg lifetimes rscripts) ras).hist) :
     (Rst.run (Rst.init cfg lifetimes rscripts) ras).watcher = none ∧
@@ -213,6 +212,53 @@ example :
        [.step 1, .step 1, .step 1, .step 2, .step 2, .step 3, .step 3, .step 0, .step 0, .step 0, .step 0, .tick 300, .step 1,
         .step 2, .step 3, .step 0, .step 0, .step 0])
     ProofsRst.stuckB s = true ∧ (s.hist.any fun o => match o with | .stopRet _ _ => true | _ => false) = true := by
+  decide +kernel
+
+/-- **"with all its helper threads gone", the process watchers** (repaired defect D29): once the working `stop()` has
+    returned, every watcher thread the trick ever started has ENDED - the current one and every one that an earlier
+    restart replaced: `stop()` joins the whole list `_process_watchers`, which holds every watcher that has not ended
+    (`stop_joins_every_live_watcher`).  For every script of start() / event / stop() calls on any number of threads, all
+    child lifetimes, schedules and clock advances. -/
+theorem watchers_gone_after_stop (tid t : Nat)
+    (h : Rst.Obs.stopRet tid t ∈ (Rst.run (Rst.init cfg lifetimes rscripts) ras).hist)
+    (j : Nat) (th : Rst.Thread) (hth : (Rst.run (Rst.init cfg lifetimes rscripts) ras).threads[j]? = some th)
+    (hk : ProofsRst.isWatcher th.kind = true) : th.pc = .done :=
+  ProofsRst.watchers_gone cfg lifetimes rscripts ras tid t h j th hth hk
+
+/-- **all helper threads gone**: once the working `stop()` has returned, every thread of the trick that is not an
+    application thread - the debouncer, every process watcher - has ended -/
+theorem helpers_gone_after_stop (tid t : Nat)
+    (h : Rst.Obs.stopRet tid t ∈ (Rst.run (Rst.init cfg lifetimes rscripts) ras).hist)
+    (j : Nat) (th : Rst.Thread) (hth : (Rst.run (Rst.init cfg lifetimes rscripts) ras).threads[j]? = some th)
+    (hk : th.kind ≠ .client) : th.pc = .done := by
+  cases hkk : th.kind with
+  | client => exact absurd hkk hk
+  | deb => exact (ProofsRst.debouncer_gone cfg lifetimes rscripts ras).1 tid t h j th hth (by rw [hkk]; rfl)
+  | watcher pid => exact ProofsRst.watchers_gone cfg lifetimes rscripts ras tid t h j th hth (by rw [hkk]; rfl)
+
+/-- a `stop()` past the restart lock carries, in the list of watchers it is going to join, every watcher thread that has
+    not ended -/
+theorem stop_joins_every_live_watcher (i : Nat) (ti : Rst.Thread)
+    (hi : (Rst.run (Rst.init cfg lifetimes rscripts) ras).threads[i]? = some ti) (hc : ProofsRst.carries ti.pc = true)
+    (u : Nat) (tu : Rst.Thread) (hu : (Rst.run (Rst.init cfg lifetimes rscripts) ras).threads[u]? = some tu)
+    (hk : ProofsRst.isWatcher tu.kind = true) (hnd : tu.pc ≠ .done) : u ∈ ProofsRst.carried ti.pc :=
+  ProofsRst.stop_carries_all_live_watchers cfg lifetimes rscripts ras i ti hi hc u tu hu hk hnd
+
+def joinAllPrefix : List Rst.Action :=
+  [.step 0, .step 0, .step 0, .step 0, .step 0, .step 0, .tick 250, .step 0, .tick 250, .step 0, .step 0,
+   .step 0, .step 0, .step 0, .tick 250, .step 0, .tick 250, .step 0, .step 0]
+
+/-- non-vacuity: start, an event (the child is replaced, and so is its watcher, thread 1, which has not run yet), stop:
+    `stop()` waits for the REPLACED watcher first (it is not enabled until thread 1 has ended), then for the current one;
+    when it has returned both watcher threads have ended -/
+example :
+    let s0 := Rst.init { interval := 0, killAfter := 1000, killDelay := 300, restartOnExit := true } [none, none]
+        [[.start, .event, .stop]]
+    let s := Rst.run s0 joinAllPrefix
+    let s' := Rst.run s [.step 1, .step 0, .step 2, .step 0]
+    (s.threads.map (·.pc) = [.stJoinW 1 [2], .begin, .begin]) ∧ Rst.enabled s 0 = false ∧
+    (s'.hist.any fun o => match o with | .stopRet _ _ => true | _ => false) = true ∧
+    s'.threads.map (·.pc) = [.done, .done, .done] := by
   decide +kernel
 
 /-- a watcher that has been told to stop is not blocked in its poll loop: it can take its next step, and that step ends it -/
